@@ -452,7 +452,7 @@ func (r *rxRunner) runFail(id int, ps []wPkg, cuts []int, off int, kind string, 
 	r.tr.Emit(Ev{"ev": "Fail", "kind": kind, "off": off, "of": len(stream)})
 	var ferr error
 	switch kind {
-	case "eof":
+	case "eof", "eofdata":
 		ferr = io.EOF
 	case "reset":
 		ferr = failErr{"connection reset by peer"}
@@ -472,6 +472,10 @@ func (r *rxRunner) runFail(id int, ps []wPkg, cuts []int, off int, kind string, 
 	}
 	if pos < off {
 		r.mc.rq = append(r.mc.rq, readItem{data: append([]byte(nil), stream[pos:off]...)})
+	}
+	if kind == "eofdata" && len(r.mc.rq) > 0 {
+		// the transport reports the end of the stream together with the last bytes it delivers
+		r.mc.rq[len(r.mc.rq)-1].tail = io.EOF
 	}
 	r.mc.mu.Unlock()
 	r.mc.cond.Broadcast()
@@ -1060,12 +1064,12 @@ func rxMain(args []string) error {
 		}
 		cs = uniq(sortInts(cs))
 		total := n + 8*(len(cs)+1)
-		kinds := []string{"eof", "reset", "timeout"}
+		kinds := []string{"eof", "reset", "timeout", "eofdata"}
 		for off := 0; off <= total; off++ {
 			if *failStep > 1 && off%*failStep != i%*failStep && off != total {
 				continue
 			}
-			kind := kinds[(off+i)%3]
+			kind := kinds[(off+i)%4]
 			var chunks []int
 			if rng.Intn(2) == 0 {
 				left := off
